@@ -20,6 +20,8 @@ import heapq
 
 from typing import Any, Dict, List, TypeVar
 
+from matched_markets.methodology import _verif_trace
+
 DictKey = TypeVar('DictKey', str, int, float)
 
 
@@ -67,6 +69,8 @@ class HeapDict:
       # Push the new item, and remove the smallest item.
       heapq.heappushpop(queue, item)
     self._result[key] = queue
+    if _verif_trace.ENABLED:
+      _verif_trace.emit('heap_push', key=key, size=len(queue), cap=self._size)
 
   def get_result(self) -> Dict[DictKey, List[Any]]:
     """Return a copy of the dictionary, each queue sorted in descending order.
